@@ -138,7 +138,7 @@ class Check:
             solver_out = info.result.output if info is not None else ""
             backend = info.result.backend if info is not None else ""
             payload = {"property": self.prop, "obligation": name, "model": model, "tier": self.tier, "seed": self.seed,
-                       "mode": "replay"}
+                       "mode": "replay", "harness": c["harness"]}
             rep = run_replay(self.prop, payload)
             self.record(name, status[name], rep, model, solver_out, backend, name in baseline, known)
         for name in vanished:
